@@ -664,23 +664,31 @@ Definition wit_ppost : schemas := Eval vm_compute in (match process chain_python
 Definition wit_pre_fs : list field :=
   Eval vm_compute in (match plain_struct_object wit_pre "w" "Root" with Some fs => fs | None => [] end).
 
-Lemma wit_pre_go : process chain_go wit_pre = Ok wit_gpost /\
-  go_ctor wit_gpost "w" "Root" = COk (JObj [("en", JStr ""); ("un", JNull)]).
+(* what the constructors return over the two post-chain contexts (computed, so that the witnesses follow the pass
+   models: today Go returns {"en": "", "un": null} and Python {"en": "h", "un": "x"}) *)
+Definition wit_go_json : json := Eval vm_compute in (match go_ctor wit_gpost "w" "Root" with COk j => j | _ => JNull end).
+Definition wit_py_json : json := Eval vm_compute in (match py_ctor wit_ppost "w" "Root" with POk j => j | _ => JNull end).
+
+Lemma wit_pre_go : process chain_go wit_pre = Ok wit_gpost /\ go_ctor wit_gpost "w" "Root" = COk wit_go_json.
 Proof. split; vm_compute; reflexivity. Qed.
 
-Lemma wit_pre_py : process chain_python wit_pre = Ok wit_ppost /\
-  py_ctor wit_ppost "w" "Root" = POk (JObj [("en", JStr "h"); ("un", JStr "x")]).
+Lemma wit_pre_py : process chain_python wit_pre = Ok wit_ppost /\ py_ctor wit_ppost "w" "Root" = POk wit_py_json.
 Proof. split; vm_compute; reflexivity. Qed.
+
+(* Python holds both declared values *)
+Lemma wit_py_holds : all_declared_hold wit_pre_fs wit_py_json = true.
+Proof. vm_compute. reflexivity. Qed.
 
 Lemma wit_pre_fields : pre_fields wit_pre "w" "Root" = Some wit_pre_fs.
 Proof. vm_compute. reflexivity. Qed.
 
-(* the Go chain loses both defaults (AnonymousEnumToExplicitType, DisjunctionToType) *)
+(* the Go chain loses declared defaults (DisjunctionToType: the union's; AnonymousEnumToExplicitType: the enum's,
+   as long as that pass drops it) *)
 Theorem ctor_defaults_go_chain_refuted : ~ ctor_defaults_go_chain_statement.
 Proof.
   intro H. destruct wit_pre_go as [A B].
   pose proof (H wit_pre wit_gpost "w" "Root" wit_pre_fs _ A wit_pre_fields B) as G.
-  assert (N : all_declared_hold wit_pre_fs (JObj [("en", JStr ""); ("un", JNull)]) = false) by (vm_compute; reflexivity).
+  assert (N : all_declared_hold wit_pre_fs wit_go_json = false) by (vm_compute; reflexivity).
   rewrite N in G. discriminate.
 Qed.
 
@@ -703,8 +711,7 @@ Theorem go_py_agree_refuted : ~ go_py_agree_statement.
 Proof.
   intro H. destruct wit_pre_go as [A B]. destruct wit_pre_py as [C D].
   pose proof (H wit_pre wit_gpost wit_ppost "w" "Root" wit_pre_fs _ _ A C wit_pre_fields B D) as G.
-  assert (N : declared_agree wit_pre_fs (JObj [("en", JStr ""); ("un", JNull)]) (JObj [("en", JStr "h"); ("un", JStr "x")]) = false)
-    by (vm_compute; reflexivity).
+  assert (N : declared_agree wit_pre_fs wit_go_json wit_py_json = false) by (vm_compute; reflexivity).
   rewrite N in G. discriminate.
 Qed.
 
@@ -715,16 +722,10 @@ Definition scalar_json_value (j : json) : bool :=
 Lemma fe_value_plain_num : forall fmt numtext m e, numtext_ok numtext ->
   dyn_plain (fe_value fmt numtext (JNum m e)) = true /\ dyn_json (fe_value fmt numtext (JNum m e)) = Some (JNum m e).
 Proof.
-  intros fmt numtext m e NT. unfold fe_value.
-  destruct (seqb fmt "jsonschema") eqn:F.
-  - destruct (Z.eqb e 0) eqn:E0; simpl.
-    + apply Z.eqb_eq in E0. subst. split; reflexivity.
-    + rewrite (NT m e). split; reflexivity.
-  - simpl. rewrite F. destruct (seqb fmt "openapi"); simpl.
-    + rewrite (NT m e). split; reflexivity.
-    + destruct (Z.eqb e 0) eqn:E0; simpl.
-      * apply Z.eqb_eq in E0. subst. split; reflexivity.
-      * rewrite (NT m e). split; reflexivity.
+  intros fmt numtext m e NT. unfold fe_value. cbn [fe_elem].
+  repeat match goal with |- context [if ?c then _ else _] => destruct c eqn:? end;
+    try match goal with H : Z.eqb e 0 = true |- _ => apply Z.eqb_eq in H; subst e end;
+    simpl; rewrite ?(NT m e); split; reflexivity.
 Qed.
 
 (* every format: a scalar default that fits its field arrives as a literal the Go field accepts and holds, and as
@@ -742,12 +743,21 @@ Proof.
   - apply py_lit_json_plain; assumption.
 Qed.
 
+(* a LIST default of numbers, whatever the format: Go rejects the []string{...} literal formatScalar prints *)
+Theorem go_list_of_numbers_does_not_compile : forall fmt numtext m e a,
+  exists w, assign (TArray a (TScalar attrs0 KInt64 DNil [])) (format_scalar (fe_value fmt numtext (JArr [JNum m e]))) = CNoCompile w.
+Proof.
+  intros. unfold fe_value. simpl.
+  repeat match goal with |- context [if ?c then _ else _] => destruct c eqn:? end; eexists; reflexivity.
+Qed.
+
+(* BEGIN jsonschema-list-elements (holds as long as walkList copies the json.Number elements of a list default) *)
 (* JSON Schema, LIST defaults: the elements stay json.Number, which %#v prints as QUOTED strings: Python stores
-   strings (re-typed); Go rejects the []string literal for every list of numbers *)
-Theorem default_altered_jsonschema_list_numbers : forall numtext m e a,
-  py_lit_json (fe_value "jsonschema" numtext (JArr [JNum m e])) = POk (JArr [JStr (numtext m e)]) /\
-  (exists w, assign (TArray a (TScalar attrs0 KInt64 DNil [])) (format_scalar (fe_value "jsonschema" numtext (JArr [JNum m e]))) = CNoCompile w).
-Proof. intros. split; [reflexivity | eexists; reflexivity]. Qed.
+   strings (re-typed) *)
+Theorem default_altered_jsonschema_list_numbers : forall numtext m e,
+  py_lit_json (fe_value "jsonschema" numtext (JArr [JNum m e])) = POk (JArr [JStr (numtext m e)]).
+Proof. intros. reflexivity. Qed.
+(* END jsonschema-list-elements *)
 
 (* the JSON Schema front-end drops the default of an enumeration, of a union and of an inline object; the OpenAPI
    front-end those of unions and inline objects (walkEnum / walkOneOf / walkObject never read `default`) *)
